@@ -20,13 +20,14 @@ EXTENDS Integers, Sequences, FiniteSets, TLC, Json, FaultCatData
 \* alterations, the count is set to 2^32 - 1, 2^31 and, for every element size k, to floor(2^32 / k) + 1 - the smallest
 \* count whose product with k overflows 32 bits
 WrapFactors == (2 .. 72) \cup {96, 128, 256}
-BytesAlts == {"zero", "ones", "flipfirst", "fliplast", "trunc", "extend", "empty", "donor", "random", "null", "absent"}
+\* "giant": half a megabyte where a few dozen bytes are expected (time and memory must stay bounded)
+BytesAlts == {"zero", "ones", "flipfirst", "fliplast", "trunc", "extend", "empty", "donor", "random", "null", "absent", "giant"}
 AltsOf(kind) ==
   CASE kind = "bytes" -> BytesAlts
     [] kind = "lpbytes" -> BytesAlts \cup {"lenmax", "lenhalf"} \cup {"lenwrap" \o ToString(k) : k \in WrapFactors}
     [] kind = "uint"  -> {"zero", "one", "inc", "max", "null", "absent"}
     [] kind = "int"   -> {"zero", "one", "inc", "max", "null", "absent"}
-    [] kind = "bigint" -> {"zero", "one", "inc", "negate", "huge", "donor", "random", "null", "absent"}
+    [] kind = "bigint" -> {"zero", "one", "inc", "negate", "huge", "giant", "donor", "random", "null", "absent"}
     [] kind = "bool"  -> {"negate", "null"}
     [] kind = "map"   -> {"null", "absent", "emptymap"}
     [] kind = "array" -> {"droplast", "duplast", "emptyarr", "null", "absent", "huge"}
